@@ -71,6 +71,8 @@ def run(c):
     def confirm(idx, t):
         return confirm_by_tlc(c, drv, cases[idx], "Trace_C05", t[2])
     c.triage(mism, classify, confirm)
+    def _c(e): e["hdr"] = [(e["hdr"][0] + 1) % 256] + e["hdr"][1:]; return e
+    binding_selftest(c, "Trace_C05", events, lambda x: x.startswith('{"op":"Dec"') and '"ok":true' in x, _c, "the header view's first octet changed")
     c.cov["notes_nil_body"] = sum(1 for _, t in mism if t[0] == "NOTE")
     c.cov["exhaustive"] = bool(thorough)
     c.cov["cube_points"] = len(pts)
